@@ -404,6 +404,46 @@ def predicate_stream(ctx, cirq, mods, checks, n):
                            f'{"==" if eq else "approx_eq" if ap else "equal_up_to_global_phase"} answered True for controlled operations with control values {cv1} and {cv2} '
                            f'(controls {cdims}, sub {sub.fam} {sub.p}) but the block matrices differ',
                            dict(signature='equality:controlled_op', sub=sub.key(), cdims=cdims, cv1=cv1, cv2=cv2, order2=order2)))
+    # ---- equality of one gate on permuted qubits (interchangeable-qubit declarations): a True answer means the matrix is
+    #      invariant under that permutation of its qubits.  Fixed grid for every seed + random draws ----
+    import math
+    perm_cands = []
+    for fam in ('CZPow', 'CXPow', 'CYPow', 'SwapPow', 'ISwapPow', 'XXPow', 'YYPow', 'ZZPow', 'CCZPow', 'CCXPow', 'CCYPow'):
+        for e in (1.0, 0.5, 0.3):
+            perm_cands.append(E(fam, e))
+    perm_cands.append(gates.G('CSwap', {}, (2, 2, 2)))
+    for th in (0.0, math.pi / 2, -math.pi / 2, math.pi, 0.3):
+        for ph in (0.0, 0.7):
+            perm_cands.append(gates.G('FSim', dict(theta=th, phi=ph), (2, 2)))
+        for chi in (0.0, 0.4, math.pi, -math.pi / 2):
+            for zeta in (0.0, 0.3, math.pi):
+                perm_cands.append(gates.G('PhasedFSim', dict(theta=th, zeta=zeta, chi=chi, gamma=0.2, phi=0.5), (2, 2)))
+    for _ in range(40 * n):
+        perm_cands.append(gates.draw(rng, rng.choice(['PhasedFSim', 'PhasedISwap', 'Givens', 'MS', 'FSim', 'ISwapPow', 'CCZPow', 'CSwap', 'Diagonal'])))
+    for g in perm_cands:
+        k = len(g.shape)
+        if k < 2 or k > 3 or any(d != 2 for d in g.shape):
+            continue
+        cg = g.cirq_gate(cirq, mods)
+        qs = cirq.LineQubit.range(k)
+        for perm in itertools.permutations(range(k)):
+            if list(perm) == list(range(k)):
+                continue
+            a, b = cg.on(*qs), cg.on(*[qs[i] for i in perm])
+            eq = (a == b)
+            ap = cirq.approx_eq(a, b, atol=1e-7)
+            up = cirq.equal_up_to_global_phase(a, b, atol=1e-7)
+            ctx.count('equality_permuted_qubits', [g.key(), list(perm)], bool(eq or ap or up), sample=dict(gate=g.key(), perm=list(perm), eq=eq, approx_eq=ap, up_to_phase=up))
+            if eq and hash(a) != hash(b):
+                checks.append(('equality_permuted_qubits', 'false', f'{g.fam} {g.key()[1]} on {list(perm)}: equal operations hash differently',
+                               dict(signature=f'equality:permuted:{g.fam}:hash', gate=g.key(), perm=list(perm))))
+            if eq or ap or up:
+                close = 'fcll_close' if (eq or ap) else 'fcll_close_phase'
+                sh = gates.nlist([2] * k)
+                checks.append(('equality_permuted_qubits',
+                               f'{close} 0x1p-18 (circ_unitary FOps {sh} [({g.coq()}, {gates.nlist(range(k))})]) (circ_unitary FOps {sh} [({g.coq()}, {gates.nlist(perm)})])',
+                               f'{"==" if eq else "approx_eq" if ap else "equal_up_to_global_phase"} answered True for {g.fam} {g.key()[1]} on qubits (0..{k - 1}) and on the permutation {list(perm)} but the matrices differ',
+                               dict(signature=f'equality:permuted:{g.fam}', gate=g.key(), perm=list(perm))))
     # ---- equality family and trace-distance bound ----
     for k in range(n * 160):
         mode = rng.choice(['equal', 'equal', 'tdb', 'tdb'])
